@@ -15,7 +15,6 @@ use crate::storage::Storable;
 
 use akd_core::SizeOf;
 use dashmap::DashMap;
-#[cfg(feature = "runtime_metrics")]
 use std::sync::atomic::AtomicU64;
 use std::sync::atomic::{AtomicBool, Ordering};
 use std::sync::Arc;
@@ -33,6 +32,10 @@ pub struct TimedCache {
     item_lifetime: Duration,
     memory_limit_bytes: Option<usize>,
     clean_frequency: Duration,
+    /// Incremented by every write-through update and by every flush. A read that missed the
+    /// cache remembers the value before it goes to the database, and its result is only kept in
+    /// the cache if no write or flush has happened since (see [TimedCache::batch_put_if_unchanged]).
+    write_generation: Arc<AtomicU64>,
 
     #[cfg(feature = "runtime_metrics")]
     hit_count: Arc<AtomicU64>,
@@ -148,6 +151,7 @@ impl TimedCache {
             item_lifetime: lifetime,
             memory_limit_bytes: o_memory_limit_bytes,
             clean_frequency,
+            write_generation: Arc::new(AtomicU64::new(0)),
 
             #[cfg(feature = "runtime_metrics")]
             hit_count: Arc::new(AtomicU64::new(0u64)),
@@ -195,25 +199,63 @@ impl TimedCache {
 
     /// Put an item into the cache.
     pub async fn put(&self, record: &DbRecord) {
-        self.clean().await;
+        self.batch_put(std::slice::from_ref(record)).await;
+    }
 
-        let key = record.get_full_binary_id();
-
-        // special case for AZKS
-        if let DbRecord::Azks(azks_ref) = &record {
-            let mut guard = self.azks.write().await;
-            *guard = Some(DbRecord::Azks(azks_ref.clone()));
-        } else {
-            let item = CachedItem {
-                expiration: cache_now() + self.item_lifetime,
-                data: record.clone(),
-            };
-            self.map.insert(key, item);
-        }
+    /// The current write generation, to be passed to [TimedCache::batch_put_if_unchanged].
+    pub fn write_generation(&self) -> u64 {
+        self.write_generation.load(Ordering::SeqCst)
     }
 
     /// Put a batch of items into the cache, utilizing a single write lock.
     pub async fn batch_put(&self, records: &[DbRecord]) {
+        self.insert_records(records).await;
+        self.write_generation.fetch_add(1, Ordering::SeqCst);
+    }
+
+    /// Update the cache with records which have just been *written* to the database. `generation`
+    /// is the value of [TimedCache::write_generation] from before the database write. If another
+    /// write (or a flush) has completed in the meantime, the order in which the database applied
+    /// the two writes is unknown to the cache, so the records are dropped from the cache instead
+    /// of being updated (the next read fetches them from the database).
+    pub async fn batch_put_after_write(&self, records: &[DbRecord], generation: u64) {
+        let previous = self.write_generation.fetch_add(1, Ordering::SeqCst);
+        if previous == generation {
+            self.insert_records(records).await;
+            if self.write_generation() == previous + 1 {
+                return;
+            }
+        }
+        self.remove_records(records).await;
+    }
+
+    /// Cache records which were *read* from the database after a cache miss. `generation` is the
+    /// value of [TimedCache::write_generation] from before the database was consulted. If a
+    /// write-through update or a flush has happened since, the records may already be outdated
+    /// (the database read can have been served before the write, while its answer is processed
+    /// after it) and caching them would pin the old values: they are not kept in that case.
+    pub async fn batch_put_if_unchanged(&self, records: &[DbRecord], generation: u64) {
+        if self.write_generation() != generation {
+            return;
+        }
+        self.insert_records(records).await;
+        if self.write_generation() != generation {
+            // a write or a flush raced with the insertion above: drop what was inserted
+            self.remove_records(records).await;
+        }
+    }
+
+    async fn remove_records(&self, records: &[DbRecord]) {
+        for record in records.iter() {
+            if let DbRecord::Azks(_) = &record {
+                *(self.azks.write().await) = None;
+            } else {
+                self.map.remove(&record.get_full_binary_id());
+            }
+        }
+    }
+
+    async fn insert_records(&self, records: &[DbRecord]) {
         self.clean().await;
 
         for record in records.iter() {
@@ -235,6 +277,7 @@ impl TimedCache {
     pub async fn flush(&self) {
         self.map.clear();
         *(self.azks.write().await) = None;
+        self.write_generation.fetch_add(1, Ordering::SeqCst);
     }
 
     /// Retrieve all the cached items.
